@@ -127,7 +127,7 @@ Proof.
 Qed.
 
 (** ** the instructions only name versions of the snapshot *)
-Lemma pass_del_in cf eqb : forall vs prev i, In i (entity_pass cf eqb prev vs) ->
+Lemma pass_del_in cf eqb same : forall vs prev i, In i (entity_pass cf eqb same prev vs) ->
   match i_del i with Some k => exists v, In v vs /\ k = key_of v | None => True end.
 Proof.
   induction vs as [|v vs IH]; intros prev i Hi; cbn [entity_pass] in Hi; [destruct Hi|].
@@ -145,7 +145,7 @@ Lemma all_del_in cf eqb d order i : In i (all_instrs cf eqb d order) ->
 Proof.
   intros Hi. unfold all_instrs in Hi. apply in_flat_map in Hi. destruct Hi as (id & _ & Hi).
   unfold entity_instrs in Hi. destruct (versions_of d id) as [|v vs] eqn:Ev; [destruct Hi|].
-  pose proof (pass_del_in cf eqb vs v i Hi) as H. destruct (i_del i); [|exact I].
+  pose proof (pass_del_in cf eqb _ vs v i Hi) as H. destruct (i_del i); [|exact I].
   destruct H as (x & Hx & ->). exists x. split; [|reflexivity].
   assert (Hin : In x (versions_of d id)) by (rewrite Ev; now right). unfold versions_of in Hin. apply filter_In in Hin. apply Hin.
 Qed.
